@@ -35,13 +35,13 @@ def cases():
         'h_c': st.sampled_from(G), 'batch': st.sampled_from([None, 2]), 'k_c': st.sampled_from([0, 1]),
         'cyc': st.booleans(), 'iv': st.sampled_from([0.5, 1.25]), 'cap': st.sampled_from([2, 'inf']),
         'n': st.sampled_from([0, 1]), 'default_source': st.sampled_from([False, False, True]),
-        'off': st.sampled_from([0, 0, 1, 2.5])})
+        'off': st.sampled_from([0, 0, 1, 2.5]), 'toucher': st.booleans()})
     return st.fixed_dictionaries({
         'attach': st.sampled_from([None, None] + lifecycle.ATTACH_KINDS),
         'kit': kit, 'when': st.sampled_from([0.5, 1, 3, 4.25]), 'hz': st.sampled_from([6, 12, 20]),
         'split': st.sampled_from([[1], [1], [0.25, 0.75], [0.5, 0.125, 0.375]]), 'older': st.sampled_from([0, 0, 1, 2]),
         'older_ran': st.booleans(), 'between': st.sampled_from([False, False, True]), 'sibling': st.booleans(),
-        'subsys': st.sampled_from([False, False, True]),
+        'subsys': st.sampled_from([False, False, True]), 'multi': st.sampled_from([False, False, True]),
         'tb': st.tuples(st.sampled_from(['fifo', 'lifo', 'const']), st.just(0)).map(list)})
 
 
